@@ -281,8 +281,6 @@ pub fn run(ctx: &Ctx) -> Report {
     rep.extra("widths_fully_enumerated", json!(format!("0..={} (every v in [-2^N-4, 2^N+4]); {}..=256 at every boundary +-4", full_upto, full_upto + 1)));
     rep.extra("typed_cases", json!(cases.len()));
     rep.extra("data_cases", json!(dcases.len() + scases.len()));
-    rep.local.states.extend(rep.local.nontrivial.iter().copied());
-    rep.local.transitions = rep.local.evaluations;
     rep.assumptions = vec!["the emitted field is observed between two fixed markers (0xa5 before, one 1-bit after)".into()];
     for c in ["typed-accept", "typed-reject", "data-accept", "data-reject", "data-sized-accept", "data-sized-reject"] {
         rep.require_class(c);
